@@ -193,3 +193,1094 @@ Proof.
     rewrite entry_app2' by apply map_length.
     unfold entry. rewrite (@nth_repeat_nil (nat * Q)). reflexivity.
 Qed.
+
+(** Pattern version: same edge set as [Model.Bfs.block_undirected] on the pattern of B. *)
+Lemma pattern_app (a b : wrows) : pattern (a ++ b) = pattern a ++ pattern b.
+Proof. unfold pattern. apply map_app. Qed.
+
+Lemma pattern_length (rows : wrows) : length (pattern rows) = length rows.
+Proof. unfold pattern. apply map_length. Qed.
+
+Lemma row_pattern (rows : wrows) (i : nat) :
+  row (pattern rows) i = map fst (filter (fun e : nat * Q => qnz (snd e)) (nth i rows [])).
+Proof.
+  unfold row, pattern.
+  apply (nth_map_nil (fun r : wrow => map fst (filter (fun e : nat * Q => qnz (snd e)) r))).
+  reflexivity.
+Qed.
+
+Lemma in_row_pattern (rows : wrows) (i j : nat) :
+  In j (row (pattern rows) i) <-> exists v, In (j, v) (nth i rows []) /\ qnz v = true.
+Proof.
+  rewrite row_pattern, in_map_iff. split.
+  - intros [[j' v] [E H]]. cbn [fst] in E. subst j'. apply filter_In in H. cbn [snd] in H.
+    exists v. exact H.
+  - intros [v [H1 H2]]. exists (j, v). split; [reflexivity|]. apply filter_In. split; assumption.
+Qed.
+
+Lemma pattern_shift (n : nat) (rows : wrows) :
+  pattern (map (shift_row n) rows) = map (fun r => map (fun j => n + j) r) (pattern rows).
+Proof.
+  unfold pattern. rewrite !map_map. apply map_ext. intros r.
+  induction r as [|e r IH]; [reflexivity|].
+  unfold shift_row in *. simpl. destruct (qnz (snd e)); simpl; rewrite IH; reflexivity.
+Qed.
+
+Lemma in_tr_row (lists : wrows) (k a : nat) (v : Q) :
+  In (a, v) (tr_row lists k) <-> In (k, v) (nth a lists []).
+Proof.
+  unfold tr_row. rewrite in_flat_map. split.
+  - intros [x [Hx H]]. apply in_map_iff in H. destruct H as [[k' v'] [E H]].
+    cbn [snd] in E. injection E as E1 E2. subst x v'.
+    apply filter_In in H. destruct H as [H Hk]. cbn [fst] in Hk. apply Nat.eqb_eq in Hk. subst k'.
+    exact H.
+  - intros H. exists a. split.
+    + apply in_seq. split; [lia|]. simpl.
+      destruct (Nat.lt_ge_cases a (length lists)) as [L|L]; auto.
+      rewrite nth_overflow in H by exact L. destruct H.
+    + apply in_map_iff. exists (k, v). split; [reflexivity|].
+      apply filter_In. split; [exact H|]. cbn [fst]. apply Nat.eqb_refl.
+Qed.
+
+Theorem block_pattern (b : wmat) :
+  let g := pattern (snd (bipartite2undirected b)) in
+  let g' := block_undirected (pattern_pmat b) in
+  length g = length g' /\ forall u v, In v (row g u) <-> In v (row g' u).
+Proof.
+  destruct b as [nc rows]. cbn [fst snd bipartite2undirected].
+  unfold block_undirected, pattern_pmat, p_nrow. cbn [p_rows p_ncol fst snd transpose].
+  rewrite pattern_app, pattern_shift. unfold p_nrow. cbn [p_rows]. rewrite pattern_length.
+  split.
+  { rewrite !app_length, !map_length, !pattern_length, transpose_w_length, seq_length. reflexivity. }
+  intros u v. unfold row.
+  destruct (Nat.lt_ge_cases u (length rows)) as [L|L].
+  - rewrite !app_nth1 by (rewrite map_length, pattern_length; exact L). reflexivity.
+  - rewrite !app_nth2 by (rewrite map_length, pattern_length; exact L).
+    rewrite map_length, pattern_length.
+    destruct (Nat.lt_ge_cases (u - length rows) nc) as [L2|L2].
+    + rewrite nth_map_seq by exact L2.
+      fold (row (pattern (transpose_w nc rows)) (u - length rows)).
+      rewrite in_row_pattern. unfold transpose_w. rewrite nth_map_seq by exact L2.
+      rewrite filter_In, in_seq. split.
+      * intros [x [H1 H2]]. apply in_tr_row in H1.
+        assert (Hv : v < length rows).
+        { destruct (Nat.lt_ge_cases v (length rows)) as [Lv|Lv]; auto.
+          rewrite nth_overflow in H1 by exact Lv. destruct H1. }
+        split; [lia|]. apply memn_In. apply in_row_pattern. exists x. split; assumption.
+      * intros [_ H]. apply memn_In in H. apply in_row_pattern in H. destruct H as [x [H1 H2]].
+        exists x. split; [|exact H2]. apply in_tr_row. exact H1.
+    + rewrite !nth_overflow; [reflexivity| |].
+      * rewrite map_length, seq_length. exact L2.
+      * rewrite pattern_length, transpose_w_length. exact L2.
+Qed.
+
+(** On rows in canonical format the block matrix is in canonical format too (so that summing
+    duplicates and sorting, which SciPy's [bmat] does in addition, changes nothing). *)
+Lemma StronglySorted_map_lt (f : nat -> nat) (l : list nat) :
+  (forall x y, x < y -> f x < f y) -> StronglySorted lt l -> StronglySorted lt (map f l).
+Proof.
+  intros Hf H. induction H as [|a l Hs IH Ha]; simpl; constructor; auto.
+  rewrite Forall_forall in *. intros y Hy. apply in_map_iff in Hy. destruct Hy as [x [<- Hx]].
+  apply Hf. apply Ha. exact Hx.
+Qed.
+
+Lemma StronglySorted_seq (s n : nat) : StronglySorted lt (seq s n).
+Proof.
+  revert s; induction n as [|n IH]; intros s; simpl; constructor; auto.
+  rewrite Forall_forall. intros y Hy. apply in_seq in Hy. lia.
+Qed.
+
+Lemma StronglySorted_filter (p : nat -> bool) (l : list nat) :
+  StronglySorted lt l -> StronglySorted lt (filter p l).
+Proof.
+  intros H. induction H as [|a l Hs IH Ha]; simpl; [constructor|].
+  destruct (p a); auto. constructor; auto.
+  rewrite Forall_forall in *. intros y Hy. apply filter_In in Hy. apply Ha. tauto.
+Qed.
+
+(** keys of [flat_map F (seq s n)] when F a has at most one entry, with key a *)
+Lemma sorted_flat_map_seq (F : nat -> wrow) (s n : nat) :
+  (forall a e, In e (F a) -> fst e = a) -> (forall a, length (F a) <= 1) ->
+  StronglySorted lt (map fst (flat_map F (seq s n))).
+Proof.
+  intros HF H1. revert s; induction n as [|n IH]; intros s; [constructor|].
+  cbn [seq flat_map]. rewrite map_app.
+  specialize (IH (S s)).
+  assert (Hall : Forall (lt s) (map fst (flat_map F (seq (S s) n)))).
+  { rewrite Forall_forall. intros y Hy. apply in_map_iff in Hy. destruct Hy as [e [<- He]].
+    apply in_flat_map in He. destruct He as [a [Ha He]]. apply in_seq in Ha.
+    rewrite (HF _ _ He). lia. }
+  pose proof (H1 s) as Hl. pose proof (HF s) as Hk.
+  destruct (F s) as [|e [|e' t]]; simpl in *; try lia; auto.
+  constructor; auto. rewrite (Hk e) by auto. exact Hall.
+Qed.
+
+Lemma filter_key_length (r : wrow) (k : nat) :
+  NoDup (map fst r) -> length (filter (fun e : nat * Q => Nat.eqb (fst e) k) r) <= 1.
+Proof.
+  induction r as [|e r IH]; simpl; intros H; [lia|].
+  inversion H as [|x l Hn Hd]; subst.
+  destruct (Nat.eqb_spec (fst e) k) as [E|Ne]; [|auto].
+  simpl. rewrite filter_none; [simpl; lia|].
+  intros e' He'. apply Nat.eqb_neq. intros E'. apply Hn. rewrite E, <- E'. apply in_map. exact He'.
+Qed.
+
+Lemma tr_row_sorted (lists : wrows) (k : nat) :
+  Forall (fun col : wrow => NoDup (map fst col)) lists -> row_sorted (tr_row lists k).
+Proof.
+  intros H. unfold row_sorted, tr_row. apply sorted_flat_map_seq.
+  - intros a e He. apply in_map_iff in He. destruct He as [e' [<- _]]. reflexivity.
+  - intros a. rewrite map_length. apply filter_key_length.
+    destruct (Nat.lt_ge_cases a (length lists)) as [L|L].
+    + rewrite Forall_forall in H. apply H. apply nth_In. exact L.
+    + rewrite nth_overflow by exact L. constructor.
+Qed.
+
+Lemma StronglySorted_lt_NoDup (l : list nat) : StronglySorted lt l -> NoDup l.
+Proof.
+  intros H. induction H as [|a l Hs IH Ha]; constructor; auto.
+  intros Hin. rewrite Forall_forall in Ha. specialize (Ha _ Hin). lia.
+Qed.
+
+Theorem block_sorted (b : wmat) :
+  rows_sorted (snd b) -> rows_sorted (snd (bipartite2undirected b)).
+Proof.
+  destruct b as [nc rows]. cbn [fst snd bipartite2undirected]. unfold rows_sorted. intros H.
+  apply Forall_app. split.
+  - rewrite Forall_forall in *. intros r Hr. apply in_map_iff in Hr. destruct Hr as [r0 [<- Hr0]].
+    specialize (H _ Hr0). unfold row_sorted, shift_row in *. rewrite map_map. cbn [fst].
+    rewrite <- (map_map fst (fun j => length rows + j)).
+    apply StronglySorted_map_lt; [intros; lia | exact H].
+  - rewrite Forall_forall. intros r Hr. unfold transpose_w in Hr. apply in_map_iff in Hr.
+    destruct Hr as [k [<- _]]. apply tr_row_sorted.
+    rewrite Forall_forall in *. intros col Hc. apply StronglySorted_lt_NoDup. apply H. exact Hc.
+Qed.
+
+(** * C03: is_square / is_symmetric / get_adjacency *)
+
+Lemma is_square_spec (m : wmat) : is_square m = true <-> length (snd m) = fst m.
+Proof. unfold is_square. apply Nat.eqb_eq. Qed.
+
+Theorem is_symmetric_spec (rows : wrows) :
+  is_symmetric rows = true <-> forall i j, (entry rows i j == entry rows j i)%Q.
+Proof.
+  unfold is_symmetric. rewrite forallb_forall. split.
+  - intros H i j.
+    assert (Hchk : forall a c, In c (map fst (nth a rows [])) ->
+                               (entry rows a c == entry rows c a)%Q).
+    { intros a c Hc. apply in_map_iff in Hc. destruct Hc as [e [<- He]].
+      assert (La : a < length rows).
+      { destruct (Nat.lt_ge_cases a (length rows)) as [L|L]; auto.
+        rewrite nth_overflow in He by exact L. destruct He. }
+      specialize (H a). rewrite forallb_forall in H.
+      apply Qeq_bool_iff. apply H; [|exact He]. apply in_seq. lia. }
+    destruct (in_dec Nat.eq_dec j (map fst (nth i rows []))) as [Hin|Hnin].
+    + apply Hchk. exact Hin.
+    + destruct (in_dec Nat.eq_dec i (map fst (nth j rows []))) as [Hin'|Hnin'].
+      * symmetry. apply Hchk. exact Hin'.
+      * unfold entry. rewrite !entry_row_notin by assumption. reflexivity.
+  - intros H i _. apply forallb_forall. intros e _. apply Qeq_bool_iff. apply H.
+Qed.
+
+Theorem get_adjacency_decision (m : wmat) (allow_directed force_bipartite force_directed : bool) :
+  let r := get_adjacency m allow_directed force_bipartite force_directed in
+  (snd r = true <->
+   force_bipartite = true \/ length (snd m) <> fst m \/
+   (allow_directed = false /\ ~ forall i j, (entry (snd m) i j == entry (snd m) j i)%Q)) /\
+  (snd r = true ->
+   fst r = if force_directed then bipartite2directed m else bipartite2undirected m) /\
+  (snd r = false -> fst r = m).
+Proof.
+  cbv zeta. unfold get_adjacency, bipartite_decision. cbn [fst snd].
+  split; [|split].
+  - rewrite !orb_true_iff, andb_true_iff, !negb_true_iff.
+    rewrite <- is_symmetric_spec, <- is_square_spec.
+    rewrite !not_true_iff_false. tauto.
+  - intros H. rewrite H. reflexivity.
+  - intros H. rewrite H. reflexivity.
+Qed.
+
+(** The block matrix of a well-formed B is square and symmetric: get_adjacency leaves it alone. *)
+Lemma wf_entry_zero (nc : nat) (rows : wrows) (i j : nat) :
+  wf_rows nc rows -> nc <= j -> entry rows i j = 0%Q.
+Proof.
+  intros H Hj. unfold entry. apply entry_row_notin. intros Hin.
+  apply in_map_iff in Hin. destruct Hin as [e [E He]].
+  destruct (Nat.lt_ge_cases i (length rows)) as [L|L].
+  - unfold wf_rows in H. rewrite Forall_forall in H.
+    specialize (H _ (nth_In rows [] L)). rewrite Forall_forall in H. specialize (H _ He). lia.
+  - rewrite nth_overflow in He by exact L. destruct He.
+Qed.
+
+Theorem block_symmetric (b : wmat) :
+  wf_wmat b ->
+  is_square (bipartite2undirected b) = true /\
+  is_symmetric (snd (bipartite2undirected b)) = true.
+Proof.
+  intros Hwf.
+  destruct (block_denotation b) as [H0 [H1 [H2 [H3 [H4 H5]]]]].
+  split; [apply is_square_spec; rewrite H0, H1; reflexivity|].
+  apply is_symmetric_spec.
+  set (nr := length (snd b)) in *. set (nc := fst b) in *.
+  set (a := snd (bipartite2undirected b)) in *.
+  (* classify an index: row node, column node, or out of range *)
+  assert (Hrc : forall i j, i < nr -> nr <= j -> (entry a i j == entry a j i)%Q).
+  { intros i j Hi Hj. replace j with (nr + (j - nr)) by lia.
+    rewrite H2 by exact Hi.
+    destruct (Nat.lt_ge_cases (j - nr) nc) as [L|L].
+    - rewrite H3 by exact L. reflexivity.
+    - rewrite (wf_entry_zero nc) by (assumption || exact L).
+      rewrite entry_overflow by (fold a; lia). reflexivity. }
+  intros i j.
+  destruct (Nat.lt_ge_cases i nr) as [Li|Li], (Nat.lt_ge_cases j nr) as [Lj|Lj].
+  - rewrite !H4 by assumption. reflexivity.
+  - apply Hrc; assumption.
+  - symmetry. apply Hrc; assumption.
+  - destruct (Nat.lt_ge_cases (i - nr) nc) as [Lic|Lic], (Nat.lt_ge_cases (j - nr) nc) as [Ljc|Ljc].
+    + replace i with (nr + (i - nr)) by lia. replace j with (nr + (j - nr)) by lia.
+      rewrite !H5 by assumption. reflexivity.
+    + replace i with (nr + (i - nr)) at 1 by lia. replace j with (nr + (j - nr)) at 1 by lia.
+      rewrite H5 by assumption. rewrite (entry_overflow a j) by lia. reflexivity.
+    + replace j with (nr + (j - nr)) at 2 by lia. replace i with (nr + (i - nr)) at 2 by lia.
+      rewrite H5 by assumption. rewrite (entry_overflow a i) by lia. reflexivity.
+    + rewrite !entry_overflow by lia. reflexivity.
+Qed.
+
+(** * C03: values *)
+
+Lemma nthq_repeat' (q : Q) (n i : nat) : i < n -> nthq (repeat q n) i = q.
+Proof.
+  revert i; induction n as [|n IH]; intros [|i] H; try lia; [reflexivity|].
+  unfold nthq in *. simpl. apply IH. lia.
+Qed.
+
+Lemma find_app {A} (f : A -> bool) (a b : list A) :
+  find f (a ++ b) = match find f a with Some x => Some x | None => find f b end.
+Proof. induction a as [|x a IH]; simpl; auto. destruct (f x); auto. Qed.
+
+Lemma find_none_keys (d : list (nat * Q)) (i : nat) :
+  ~ In i (map fst d) -> find (fun e : nat * Q => Nat.eqb (fst e) i) d = None.
+Proof.
+  induction d as [|e d IH]; simpl; intros H; auto.
+  destruct (Nat.eqb_spec (fst e) i) as [E|Ne]; [exfalso; apply H; auto|].
+  apply IH. intros Hin. apply H. auto.
+Qed.
+
+Lemma dict_get_absent (d : list (nat * Q)) (i : nat) (default : Q) :
+  ~ In i (map fst d) -> dict_get d i default = default.
+Proof.
+  intros H. unfold dict_get. rewrite find_none_keys; [reflexivity|].
+  rewrite map_rev. intros Hin. apply in_rev in Hin. exact (H Hin).
+Qed.
+
+(** The last occurrence of a key wins. *)
+Lemma dict_get_last (d1 d2 : list (nat * Q)) (i : nat) (x default : Q) :
+  ~ In i (map fst d2) -> dict_get (d1 ++ (i, x) :: d2) i default = x.
+Proof.
+  intros H. unfold dict_get. rewrite rev_app_distr. simpl rev. rewrite <- app_assoc, find_app.
+  rewrite find_none_keys.
+  - simpl. rewrite Nat.eqb_refl. reflexivity.
+  - rewrite map_rev. intros Hin. apply in_rev in Hin. exact (H Hin).
+Qed.
+
+Lemma dict_get_present (d : list (nat * Q)) (i : nat) (x default : Q) :
+  NoDup (map fst d) -> In (i, x) d -> dict_get d i default = x.
+Proof.
+  intros Hnd Hin. apply in_split in Hin. destruct Hin as [d1 [d2 E]]. subst d.
+  apply dict_get_last. rewrite map_app in Hnd. simpl in Hnd.
+  apply NoDup_remove_2 in Hnd. intros H. apply Hnd. apply in_or_app. right. exact H.
+Qed.
+
+Theorem get_values_spec (n : nat) (v : vals) (default : Q) (l : list Q) :
+  get_values n v default = Ok l ->
+  length l = n /\ forall i, i < n -> nthq l i = seed_at v 1%Q default i.
+Proof.
+  destruct v as [|a|d]; simpl.
+  - intros E. injection E as <-. split; [apply repeat_length|]. intros i Hi. apply nthq_repeat'. exact Hi.
+  - destruct (Nat.eqb_spec (length a) n) as [E|Ne]; [|discriminate].
+    intros E'. injection E' as <-. split; [exact E|]. reflexivity.
+  - destruct d as [|e d]; [discriminate|].
+    destruct (forallb _ _); [|discriminate].
+    intros E. injection E as <-. split; [rewrite map_length, seq_length; reflexivity|].
+    intros i Hi. unfold nthq. rewrite nth_map_seq by exact Hi. reflexivity.
+Qed.
+
+Lemma firstn_app_exact {A} (r c : list A) : firstn (length r) (r ++ c) = r.
+Proof. induction r as [|a r IH]; simpl; [destruct c; reflexivity|]. f_equal. exact IH. Qed.
+
+Lemma skipn_app_exact {A} (r c : list A) : skipn (length r) (r ++ c) = c.
+Proof. induction r as [|a r IH]; simpl; auto. Qed.
+
+Theorem stack_split_inverse (n_row n_col : nat) (vrow vcol : vals) (default : Q) (s : list Q) :
+  stack_values n_row n_col vrow vcol default = Ok s ->
+  exists r c,
+    get_values n_row (fst (stack_defaults n_row n_col vrow vcol default)) default = Ok r /\
+    get_values n_col (snd (stack_defaults n_row n_col vrow vcol default)) default = Ok c /\
+    length r = n_row /\ length c = n_col /\ s = r ++ c /\ Format.split n_row s = (r, c).
+Proof.
+  unfold stack_values.
+  destruct (stack_defaults n_row n_col vrow vcol default) as [vr vc]. cbn [fst snd].
+  destruct (get_values n_row vr default) as [r|e] eqn:Er; [|discriminate].
+  destruct (get_values n_col vc default) as [c|e] eqn:Ec; [|discriminate].
+  intros E. injection E as <-.
+  destruct (get_values_spec _ _ _ _ Er) as [Lr _]. destruct (get_values_spec _ _ _ _ Ec) as [Lc _].
+  exists r, c. repeat split; auto.
+  unfold Format.split. rewrite <- Lr. rewrite firstn_app_exact, skipn_app_exact. reflexivity.
+Qed.
+
+Theorem stack_values_addresses (n_row n_col : nat) (vrow vcol : vals) (default : Q) (s : list Q) :
+  stack_values n_row n_col vrow vcol default = Ok s ->
+  let both_none := match vrow, vcol with VNone, VNone => true | _, _ => false end in
+  length s = n_row + n_col /\
+  (forall i, i < n_row ->
+     nthq s i = seed_at vrow (if both_none then 1%Q else default) default i) /\
+  (forall j, j < n_col -> nthq s (n_row + j) = seed_at vcol default default j).
+Proof.
+  intros H. destruct (stack_split_inverse _ _ _ _ _ _ H) as [r [c [Er [Ec [Lr [Lc [Es _]]]]]]].
+  destruct (get_values_spec _ _ _ _ Er) as [_ Sr]. destruct (get_values_spec _ _ _ _ Ec) as [_ Sc].
+  cbv zeta. subst s. split; [rewrite app_length; lia|]. split.
+  - intros i Hi. unfold nthq. rewrite app_nth1 by lia. fold (nthq r i). rewrite Sr by exact Hi.
+    destruct vrow, vcol; cbn [stack_defaults fst seed_at]; try reflexivity;
+      apply nthq_repeat'; exact Hi.
+  - intros j Hj. unfold nthq. rewrite app_nth2 by lia.
+    replace (n_row + j - length r) with j by lia. fold (nthq c j). rewrite Sc by exact Hj.
+    destruct vrow, vcol; cbn [stack_defaults snd seed_at]; try reflexivity;
+      apply nthq_repeat'; exact Hj.
+Qed.
+
+(** * C03: the pipeline *)
+
+(** True by construction: the statement pins the addressing conventions down (block adjacency with
+    rows first, seeds stacked rows first, outputs split at n_row); it does not say that a given
+    estimator has this shape - that is observed by the metamorphic harness. *)
+Theorem bipartite_pipeline_eq (F : core) (b : wmat) (vrow vcol : vals) (default : Q)
+        (r c : list Q) :
+  fit_bip F b vrow vcol default = Ok (r, c) ->
+  exists s, stack_values (length (snd b)) (fst b) vrow vcol default = Ok s /\
+    let x := fit_sq F (bipartite2undirected b) s in
+    (r, c) = Format.split (length (snd b)) x /\ r ++ c = x /\
+    (length x = length (snd b) + fst b -> length r = length (snd b) /\ length c = fst b).
+Proof.
+  unfold fit_bip, fit_sq.
+  destruct (stack_values (length (snd b)) (fst b) vrow vcol default) as [s|e]; [|discriminate].
+  intros E. injection E as E1 E2. exists s. split; [reflexivity|]. cbv zeta.
+  subst r c. split; [reflexivity|].
+  split; [apply firstn_skipn|].
+  intros HL. rewrite firstn_length, skipn_length. cbn [bipartite2undirected snd] in HL |- *. lia.
+Qed.
+
+(** The skeleton as coded: whenever the bipartite treatment is chosen for B (a column output is
+    produced), the outputs are the two halves of what the same skeleton returns for the block
+    adjacency, taken as an ordinary square graph, with the stacked seed vector. *)
+Theorem fit_bipartite_eq_block (F : core) (b : wmat) (allow_directed force_bipartite : bool)
+        (values vrow vcol : vals) (default : Q) (r c : list Q) :
+  wf_wmat b ->
+  fit F b allow_directed force_bipartite false values vrow vcol default = Ok (r, Some c) ->
+  exists s,
+    match values with
+    | VNone => stack_values (length (snd b)) (fst b) vrow vcol default
+    | _ => stack_values (length (snd b)) (fst b) values VNone default
+    end = Ok s /\
+    let x := F (snd (bipartite2undirected b)) s in
+    fit F (bipartite2undirected b) allow_directed false false (VArr s) VNone VNone default
+      = Ok (x, None) /\
+    r = firstn (length (snd b)) x /\ c = skipn (length (snd b)) x.
+Proof.
+  intros Hwf. unfold fit at 1. unfold get_adjacency_values at 1.
+  set (fb := match vrow, vcol with VNone, VNone => force_bipartite | _, _ => true end).
+  pose proof (get_adjacency_decision b allow_directed fb false) as [_ [Hb _]].
+  destruct (get_adjacency b allow_directed fb false) as [adj bip]. cbn [fst snd] in Hb.
+  destruct bip.
+  2:{ destruct (get_values (length (snd b)) values default); [|discriminate].
+      intros E. discriminate. }
+  rewrite (Hb eq_refl).
+  set (rv := match values with
+             | VNone => stack_values (length (snd b)) (fst b) vrow vcol default
+             | _ => stack_values (length (snd b)) (fst b) values VNone default
+             end).
+  destruct rv as [s|e] eqn:Erv; [|discriminate].
+  unfold Format.split. intros E. injection E as E1 E2. exists s. split; [reflexivity|].
+  cbv zeta. split; [|split; symmetry; assumption].
+  assert (Hs : length s = length (snd b) + fst b).
+  { unfold rv in Erv. destruct values; apply stack_values_addresses in Erv; tauto. }
+  destruct (block_symmetric b Hwf) as [Hsq Hsym].
+  destruct (block_denotation b) as [_ [Hlen _]].
+  unfold fit, get_adjacency_values, get_adjacency, bipartite_decision.
+  rewrite Hsq, Hsym. cbn [negb orb andb]. rewrite andb_false_r.
+  cbn [get_values]. rewrite Hlen, Hs, Nat.eqb_refl. reflexivity.
+Qed.
+
+(** * C01: conversion to CSR keeps the denotation *)
+
+Lemma entry_map_nil {A} (f : list A -> wrow) (rows : list (list A)) (i j : nat) :
+  f [] = [] -> entry (map f rows) i j = entry_row (f (nth i rows [])) j.
+Proof. intros H. unfold entry. rewrite (nth_map_nil f) by exact H. reflexivity. Qed.
+
+Lemma entry_row_dense_from (s : nat) (r : list Q) (j : nat) :
+  (entry_row (filter (fun e : nat * Q => qnz (snd e)) (combine (seq s (length r)) r)) j ==
+   if Nat.leb s j then nthq r (j - s) else 0)%Q.
+Proof.
+  revert s; induction r as [|a r IH]; intros s.
+  - simpl. unfold nthq. destruct (Nat.leb s j), (j - s); reflexivity.
+  - cbn [length seq combine filter snd].
+    assert (Hrest : (entry_row (filter (fun e : nat * Q => qnz (snd e))
+                                       (combine (seq (S s) (length r)) r)) j ==
+                     if Nat.leb s j then (if Nat.eqb s j then 0 else nthq (a :: r) (j - s)) else 0)%Q).
+    { rewrite IH. destruct (Nat.leb_spec (S s) j) as [L|L], (Nat.leb_spec s j) as [L'|L']; try lia.
+      - destruct (Nat.eqb_spec s j) as [E|Ne]; [lia|].
+        replace (j - s) with (S (j - S s)) by lia. reflexivity.
+      - destruct (Nat.eqb_spec s j) as [E|Ne]; [reflexivity|lia].
+      - reflexivity. }
+    revert Hrest. destruct (qnz a) eqn:Ea; [rewrite entry_row_cons; cbn [fst snd]|];
+      destruct (Nat.eqb_spec s j) as [E|Ne]; intros Hrest; rewrite Hrest.
+    + subst j. rewrite Nat.leb_refl, Nat.sub_diag. unfold nthq. simpl. ring.
+    + reflexivity.
+    + subst j. rewrite Nat.leb_refl, Nat.sub_diag. unfold nthq. simpl.
+      apply qnz_false in Ea. rewrite Ea. reflexivity.
+    + reflexivity.
+Qed.
+
+Lemma entry_row_dense (r : list Q) (j : nat) : (entry_row (dense_row r) j == nthq r j)%Q.
+Proof. unfold dense_row. rewrite entry_row_dense_from. simpl. rewrite Nat.sub_0_r. reflexivity. Qed.
+
+Lemma entry_row_tabulate (f : nat -> Q) (l : list nat) (j : nat) :
+  NoDup l -> In j l -> (entry_row (map (fun k => (k, f k)) l) j == f j)%Q.
+Proof.
+  induction l as [|a l IH]; intros Hnd Hin; [destruct Hin|].
+  inversion Hnd as [|x y Hn Hd]; subst. simpl map. rewrite entry_row_cons. cbn [fst snd].
+  destruct (Nat.eqb_spec a j) as [E|Ne].
+  - subst a. rewrite entry_row_notin; [ring|].
+    rewrite map_map. cbn [fst]. rewrite map_id. exact Hn.
+  - apply IH; auto. destruct Hin as [E|H]; [contradiction|exact H].
+Qed.
+
+Lemma coo_sum_unstored (es : list (nat * nat * Q)) (i j : nat) :
+  coo_stored es i j = false -> coo_sum es i j = 0%Q.
+Proof.
+  unfold coo_stored, coo_sum. intros H. rewrite existsb_false in H.
+  rewrite filter_none by exact H. reflexivity.
+Qed.
+
+Lemma coo_unstored_range (nr nc : nat) (es : list (nat * nat * Q)) (i j : nat) :
+  Forall (fun e : nat * nat * Q => fst (fst e) < nr /\ snd (fst e) < nc) es ->
+  nr <= i \/ nc <= j -> coo_stored es i j = false.
+Proof.
+  intros Hwf Hij. unfold coo_stored. apply existsb_false. intros e He.
+  rewrite Forall_forall in Hwf. specialize (Hwf _ He). unfold coo_at.
+  apply andb_false_iff. destruct Hij as [H|H]; [left|right]; apply Nat.eqb_neq; lia.
+Qed.
+
+Theorem to_csr_denotation (c : container) :
+  wf_shape c -> forall i j, (entry (snd (to_csr c)) i j == den c i j)%Q.
+Proof.
+  destruct c as [rows|nr nc es|nr cols|nc rows|nc rows]; cbn [to_csr snd den wf_shape]; intros Hwf i j.
+  - rewrite (entry_map_nil dense_row) by reflexivity. apply entry_row_dense.
+  - destruct (Nat.lt_ge_cases i nr) as [Li|Li].
+    + unfold entry. rewrite nth_map_seq by exact Li. unfold coo_row.
+      destruct (coo_stored es i j) eqn:Es.
+      * destruct (Nat.lt_ge_cases j nc) as [Lj|Lj].
+        -- apply (entry_row_tabulate (fun k => coo_sum es i k)).
+           ++ apply NoDup_filter. apply seq_NoDup.
+           ++ apply filter_In. split; [apply in_seq; lia|exact Es].
+        -- rewrite (coo_unstored_range nr nc es i j Hwf) in Es by (right; exact Lj). discriminate.
+      * rewrite coo_sum_unstored by exact Es. rewrite entry_row_notin; [reflexivity|].
+        rewrite map_map. cbn [fst]. rewrite map_id. intros Hin. apply filter_In in Hin.
+        destruct Hin as [_ Hin]. rewrite Hin in Es. discriminate.
+    + rewrite entry_overflow by (rewrite map_length, seq_length; exact Li).
+      rewrite coo_sum_unstored; [reflexivity|].
+      apply (coo_unstored_range nr nc es i j Hwf). left. exact Li.
+  - destruct (Nat.lt_ge_cases i nr) as [Li|Li].
+    + apply entry_transpose_w. exact Li.
+    + rewrite entry_overflow by (rewrite transpose_w_length; exact Li).
+      rewrite (wf_entry_zero nr cols j i Hwf Li). reflexivity.
+  - reflexivity.
+  - reflexivity.
+Qed.
+
+(** Shape of the result. *)
+Theorem to_csr_shape (c : container) :
+  fst (to_csr c) = c_ncol c /\ length (snd (to_csr c)) = c_nrow c.
+Proof.
+  destruct c as [rows|nr nc es|nr cols|nc rows|nc rows]; cbn [to_csr fst snd c_ncol c_nrow];
+    split; try reflexivity.
+  - apply map_length.
+  - rewrite map_length, seq_length. reflexivity.
+  - apply transpose_w_length.
+Qed.
+
+(** * C01: the output is in canonical format for every container but CSR *)
+
+Lemma dense_row_sorted_from (s : nat) (r : list Q) :
+  StronglySorted lt (map fst (filter (fun e : nat * Q => qnz (snd e)) (combine (seq s (length r)) r))).
+Proof.
+  revert s; induction r as [|a r IH]; intros s; [constructor|].
+  cbn [length seq combine filter snd]. destruct (qnz a); [|apply IH].
+  cbn [map fst]. constructor; [apply IH|].
+  rewrite Forall_forall. intros y Hy. apply in_map_iff in Hy. destruct Hy as [[k v] [<- He]].
+  apply filter_In in He. destruct He as [He _]. apply in_combine_l in He. apply in_seq in He.
+  cbn [fst]. lia.
+Qed.
+
+Theorem to_csr_sorted (c : container) :
+  is_csr c = false -> canonical c -> rows_sorted (snd (to_csr c)).
+Proof.
+  destruct c as [rows|nr nc es|nr cols|nc rows|nc rows]; cbn [to_csr snd is_csr canonical];
+    intros Hc Hcan; try discriminate; unfold rows_sorted.
+  - rewrite Forall_forall. intros r Hr. apply in_map_iff in Hr. destruct Hr as [r0 [<- _]].
+    apply dense_row_sorted_from.
+  - rewrite Forall_forall. intros r Hr. apply in_map_iff in Hr. destruct Hr as [i [<- _]].
+    unfold row_sorted, coo_row. rewrite map_map. cbn [fst]. rewrite map_id.
+    apply StronglySorted_filter. apply StronglySorted_seq.
+  - rewrite Forall_forall. intros r Hr. unfold transpose_w in Hr. apply in_map_iff in Hr.
+    destruct Hr as [k [<- _]]. apply tr_row_sorted. exact Hcan.
+  - exact Hcan.
+Qed.
+
+(** * C01: the order of the stored indices and duplicates are invisible to BFS and get_dag *)
+
+Definition same_rows (g g' : graph) : Prop :=
+  length g = length g' /\ forall u v, In v (row g u) <-> In v (row g' u).
+
+Lemma memn_same (v : nat) (l l' : list nat) :
+  (In v l <-> In v l') -> memn v l = memn v l'.
+Proof.
+  intros H. destruct (memn v l) eqn:E1, (memn v l') eqn:E2; auto.
+  - apply memn_In in E1. apply H in E1. apply memn_In in E1. congruence.
+  - apply memn_In in E2. apply H in E2. apply memn_In in E2. congruence.
+Qed.
+
+Lemma frontier_same (g g' : graph) (reach : list bool) :
+  same_rows g g' -> frontier g reach = frontier g' reach.
+Proof.
+  intros [HL HR]. unfold frontier. rewrite <- HL. apply map_ext. intros v. f_equal.
+  apply existsb_ext'. intros u _. f_equal. apply memn_same. apply HR.
+Qed.
+
+Lemma bfs_loop_same (g g' : graph) :
+  same_rows g g' ->
+  forall fuel d reach dist, bfs_loop fuel g d reach dist = bfs_loop fuel g' d reach dist.
+Proof.
+  intros H. induction fuel as [|f IH]; intros d reach dist; [reflexivity|].
+  cbn [bfs_loop]. rewrite <- (frontier_same g g' reach H).
+  destruct (existsb (fun b : bool => b) (frontier g reach)); [apply IH|reflexivity].
+Qed.
+
+Theorem bfs_row_order_irrelevant (g g' : graph) :
+  same_rows g g' ->
+  (forall src, bfs g src = bfs g' src) /\
+  (forall order, same_rows (get_dag g order) (get_dag g' order)).
+Proof.
+  intros H. split.
+  - intros src. unfold bfs. destruct H as [HL HR]. rewrite <- HL.
+    apply bfs_loop_same. split; assumption.
+  - intros order. destruct H as [HL HR]. split; [rewrite !get_dag_length; exact HL|].
+    intros u v. destruct (Nat.lt_ge_cases u (length g)) as [L|L].
+    + rewrite !row_get_dag by lia. rewrite !filter_In, HR. reflexivity.
+    + unfold row. rewrite !nth_overflow by (rewrite get_dag_length; lia). reflexivity.
+Qed.
+
+(** * C02: the permutation action *)
+
+Section Perm.
+Context (n : nat) (p : list nat) (Hp : Permutation p (seq 0 n)).
+
+Lemma perm_length : length p = n.
+Proof. rewrite (Permutation_length Hp). apply seq_length. Qed.
+
+Lemma perm_NoDup : NoDup p.
+Proof. apply (Permutation_NoDup (Permutation_sym Hp)). apply seq_NoDup. Qed.
+
+Lemma perm_In (k : nat) : In k p <-> k < n.
+Proof.
+  split.
+  - intros H. apply (Permutation_in _ Hp) in H. apply in_seq in H. lia.
+  - intros H. apply (Permutation_in _ (Permutation_sym Hp)). apply in_seq. lia.
+Qed.
+
+Lemma perm_lt (i : nat) : i < n -> nthn p i < n.
+Proof. intros H. apply perm_In. unfold nthn. apply nth_In. rewrite perm_length. exact H. Qed.
+
+Lemma perm_inj (i j : nat) : i < n -> j < n -> nthn p i = nthn p j -> i = j.
+Proof.
+  intros Hi Hj E. unfold nthn in E.
+  apply (proj1 (NoDup_nth p 0) perm_NoDup); rewrite ?perm_length; assumption.
+Qed.
+
+Lemma index_of_In (l : list nat) (k : nat) :
+  In k l -> index_of k l < length l /\ nthn l (index_of k l) = k.
+Proof.
+  induction l as [|a l IH]; intros H; [destruct H|].
+  simpl. destruct (Nat.eqb_spec a k) as [E|Ne].
+  - split; [lia|]. exact E.
+  - destruct H as [E|H]; [contradiction|]. destruct (IH H) as [H1 H2]. split; [lia|exact H2].
+Qed.
+
+Lemma index_of_nth (l : list nat) (i : nat) :
+  NoDup l -> i < length l -> index_of (nthn l i) l = i.
+Proof.
+  intros Hnd Hi.
+  assert (Hin : In (nthn l i) l) by (unfold nthn; apply nth_In; exact Hi).
+  destruct (index_of_In l _ Hin) as [H1 H2].
+  unfold nthn in H2. apply (proj1 (NoDup_nth l 0) Hnd); assumption.
+Qed.
+
+Lemma perm_index_lt (k : nat) : k < n -> index_of k p < n.
+Proof.
+  intros H. pose proof (index_of_In p k (proj2 (perm_In k) H)) as [H1 _].
+  rewrite perm_length in H1. exact H1.
+Qed.
+
+Lemma perm_index_nth (k : nat) : k < n -> nthn p (index_of k p) = k.
+Proof. intros H. apply index_of_In. apply perm_In. exact H. Qed.
+
+Lemma perm_index_of (i : nat) : i < n -> index_of (nthn p i) p = i.
+Proof. intros H. apply index_of_nth; [exact perm_NoDup | rewrite perm_length; exact H]. Qed.
+
+Lemma perm_vec_length {A} (d : A) (v : list A) : length (perm_vec d p v) = n.
+Proof. unfold perm_vec. rewrite map_length, seq_length. exact perm_length. Qed.
+
+(** Characterisation of [perm_vec]: entry p[i] of the new vector is entry i of the old one. *)
+Theorem perm_vec_nth {A} (d : A) (v : list A) (i : nat) :
+  i < n -> nth (nthn p i) (perm_vec d p v) d = nth i v d.
+Proof.
+  intros Hi. unfold perm_vec. rewrite perm_length.
+  rewrite nth_map_seq by (apply perm_lt; exact Hi). rewrite perm_index_of by exact Hi. reflexivity.
+Qed.
+
+(** ... and, read the other way, entry k of the new vector is entry p^-1[k] of the old one. *)
+Lemma perm_vec_nth_inv {A} (d : A) (v : list A) (k : nat) :
+  k < n -> nth k (perm_vec d p v) d = nth (index_of k p) v d.
+Proof.
+  intros Hk. unfold perm_vec. rewrite perm_length.
+  apply (nth_map_seq (fun k0 => nth (index_of k0 p) v d)). exact Hk.
+Qed.
+
+Lemma perm_graph_length (g : graph) : length (perm_graph p g) = n.
+Proof. unfold perm_graph. rewrite map_length, seq_length. exact perm_length. Qed.
+
+Theorem perm_graph_row (g : graph) (i : nat) :
+  i < n -> row (perm_graph p g) (nthn p i) = map (nthn p) (row g i).
+Proof.
+  intros Hi. unfold row at 1, perm_graph. rewrite perm_length.
+  rewrite nth_map_seq by (apply perm_lt; exact Hi). rewrite perm_index_of by exact Hi. reflexivity.
+Qed.
+
+Lemma perm_graph_wf (g : graph) : length g = n -> wf_graph g -> wf_graph (perm_graph p g).
+Proof.
+  intros HL Hwf u v Hin. rewrite perm_graph_length.
+  pose proof (row_nonempty_lt _ _ _ Hin) as Hu. rewrite perm_graph_length in Hu.
+  rewrite <- (perm_index_nth u Hu) in Hin. rewrite perm_graph_row in Hin by (apply perm_index_lt; exact Hu).
+  apply in_map_iff in Hin. destruct Hin as [w [<- Hw]]. apply perm_lt.
+  rewrite <- HL. exact (Hwf _ _ Hw).
+Qed.
+
+(** ** Hop distances *)
+
+Theorem reachk_equivariant (g : graph) (src : list bool) (k v : nat) :
+  length g = n -> wf_graph g -> v < n ->
+  (reachk (perm_graph p g) (perm_vecb p src) k (nthn p v) <-> reachk g src k v).
+Proof.
+  intros HL Hwf. revert v. induction k as [|k IH]; intros v Hv.
+  - simpl. unfold nthb, perm_vecb. rewrite perm_vec_nth by exact Hv. reflexivity.
+  - simpl. split.
+    + intros [u' [Hr Hin]].
+      pose proof (row_nonempty_lt _ _ _ Hin) as Hu. rewrite perm_graph_length in Hu.
+      rewrite <- (perm_index_nth u' Hu) in Hr, Hin.
+      pose proof (perm_index_lt u' Hu) as Hu0.
+      apply IH in Hr; [|exact Hu0]. rewrite perm_graph_row in Hin by exact Hu0.
+      apply in_map_iff in Hin. destruct Hin as [w [E Hw]].
+      assert (Hwn : w < n) by (rewrite <- HL; exact (Hwf _ _ Hw)).
+      apply perm_inj in E; [|assumption|assumption]. subst w.
+      exists (index_of u' p). split; assumption.
+    + intros [u [Hr Hin]].
+      assert (Hu : u < n) by (rewrite <- HL; exact (row_nonempty_lt _ _ _ Hin)).
+      exists (nthn p u). split; [apply IH; assumption|].
+      rewrite perm_graph_row by exact Hu. apply in_map. exact Hin.
+Qed.
+
+Lemma hop_equivariant (g : graph) (src : list bool) (k v : nat) :
+  length g = n -> wf_graph g -> v < n ->
+  (hop (perm_graph p g) (perm_vecb p src) (nthn p v) k <-> hop g src v k).
+Proof.
+  intros HL Hwf Hv. unfold hop. rewrite reachk_equivariant by assumption.
+  split; intros [H1 H2]; split; auto; intros j Hj Hr; apply (H2 j Hj).
+  - apply (proj2 (reachk_equivariant g src j v HL Hwf Hv)). exact Hr.
+  - apply (proj1 (reachk_equivariant g src j v HL Hwf Hv)). exact Hr.
+Qed.
+
+End Perm.
+
+(** The distances returned by [bfs] are >= -1 (not part of BfsProofs.bfs_exact). *)
+Lemma bfs_loop_range (g : graph) (src : list bool) :
+  forall fuel r reach dist dist',
+    Inv g src r reach dist ->
+    bfs_loop fuel g (Z.of_nat (S r)) reach dist = Some dist' ->
+    forall v, v < length g -> (-1 <= nthz dist' v)%Z.
+Proof.
+  induction fuel as [|f IH]; intros r reach dist dist' HI Hb v Hv; [discriminate|].
+  cbn [bfs_loop] in Hb.
+  destruct (existsb (fun b : bool => b) (frontier g reach)) eqn:E.
+  - replace (Z.of_nat (S r) + 1)%Z with (Z.of_nat (S (S r))) in Hb by lia.
+    exact (IH _ _ _ _ (inv_step _ _ _ _ _ HI) Hb v Hv).
+  - injection Hb as <-. destruct (nthb reach v) eqn:Er.
+    + destruct (inv_dist_t _ _ _ _ _ HI v Hv Er) as [k [Hk _]]. lia.
+    + rewrite (inv_dist_f _ _ _ _ _ HI v Hv Er). lia.
+Qed.
+
+Lemma bfs_range (g : graph) (src : list bool) (dist : list Z) :
+  length src = length g -> bfs g src = Some dist ->
+  forall v, v < length g -> (-1 <= nthz dist v)%Z.
+Proof.
+  intros Hs Hb. unfold bfs in Hb. change 1%Z with (Z.of_nat (S 0)) in Hb.
+  exact (bfs_loop_range g src _ _ _ _ _ (inv_init g src Hs) Hb).
+Qed.
+
+Theorem bfs_equivariant (n : nat) (p : list nat) (g : graph) (src : list bool) (dist : list Z) :
+  Permutation p (seq 0 n) -> length g = n -> wf_graph g -> length src = n ->
+  bfs g src = Some dist ->
+  bfs (perm_graph p g) (perm_vecb p src) = Some (perm_vecz p dist).
+Proof.
+  intros Hp HL Hwf Hs Hb.
+  destruct (bfs_exact g src) as [dist0 [Hb0 [Hl0 Hf0]]]; [lia|].
+  rewrite Hb in Hb0. injection Hb0 as <-.
+  assert (Hs' : length (perm_vecb p src) = length (perm_graph p g)).
+  { unfold perm_vecb. rewrite (perm_vec_length n p Hp), (perm_graph_length n p Hp). reflexivity. }
+  destruct (bfs_exact (perm_graph p g) (perm_vecb p src) Hs') as [dist' [Hb' [Hl' Hf']]].
+  rewrite Hb'. f_equal. rewrite (perm_graph_length n p Hp) in Hl', Hf'.
+  apply nth_ext with (d := 0%Z) (d' := 0%Z).
+  - unfold perm_vecz. rewrite (perm_vec_length n p Hp). exact Hl'.
+  - intros w Hw. rewrite Hl' in Hw.
+    rewrite <- (perm_index_nth n p Hp w Hw).
+    pose proof (perm_index_lt n p Hp w Hw) as Hv. set (v := index_of w p) in *.
+    unfold perm_vecz. rewrite (perm_vec_nth n p Hp) by exact Hv.
+    fold (nthz dist' (nthn p v)). fold (nthz dist v).
+    pose proof (bfs_range g src dist ltac:(lia) Hb v ltac:(lia)) as Hrange.
+    destruct (Hf0 v ltac:(lia)) as [Hk0 Hm0].
+    destruct (Hf' (nthn p v) (perm_lt n p Hp v Hv)) as [Hk' Hm'].
+    destruct (Z.eq_dec (nthz dist v) (-1)%Z) as [E|Ne].
+    + rewrite E. apply Hm'. intros k Hr.
+      apply (proj1 (reachk_equivariant n p Hp g src k v HL Hwf Hv)) in Hr.
+      exact (proj1 Hm0 E k Hr).
+    + assert (Ek : nthz dist v = Z.of_nat (Z.to_nat (nthz dist v))) by lia.
+      rewrite Ek. apply Hk'. apply (proj2 (hop_equivariant n p Hp g src _ v HL Hwf Hv)).
+      apply Hk0. exact Ek.
+Qed.
+
+(** ** get_dag *)
+
+Theorem get_dag_equivariant (n : nat) (p : list nat) (g : graph) (order : list Z) (i j : nat) :
+  Permutation p (seq 0 n) -> length g = n -> wf_graph g -> length order = n ->
+  i < n -> j < n ->
+  (In (nthn p j) (row (get_dag (perm_graph p g) (perm_vecz p order)) (nthn p i)) <->
+   In j (row (get_dag g order) i)).
+Proof.
+  intros Hp HL Hwf Ho Hi Hj.
+  rewrite (get_dag_exact (perm_graph p g)).
+  - rewrite (get_dag_exact g order i j Hwf) by lia.
+    rewrite (perm_graph_row n p Hp) by exact Hi.
+    unfold nthz, perm_vecz. rewrite !(perm_vec_nth n p Hp) by assumption.
+    split; intros [H1 H2]; (split; [|exact H2]).
+    + apply in_map_iff in H1. destruct H1 as [w [E Hw]].
+      assert (Hwn : w < n) by (rewrite <- HL; exact (Hwf _ _ Hw)).
+      apply (perm_inj n p Hp) in E; [subst w; exact Hw|assumption|assumption].
+    + apply in_map. exact H1.
+  - apply (perm_graph_wf n p Hp); assumption.
+  - unfold perm_vecz. rewrite (perm_vec_length n p Hp), (perm_graph_length n p Hp). reflexivity.
+  - rewrite (perm_graph_length n p Hp). apply (perm_lt n p Hp). exact Hi.
+Qed.
+
+(** ** Linear algebra *)
+
+Lemma sumq_Permutation (u v : list Q) : Permutation u v -> (sumq u == sumq v)%Q.
+Proof.
+  intros H; induction H as [|x l l' H IH|x y l|l l' l'' H1 IH1 H2 IH2]; simpl.
+  - reflexivity.
+  - rewrite IH. reflexivity.
+  - ring.
+  - rewrite IH1. exact IH2.
+Qed.
+
+Lemma perm_vec_Permutation {A} (n : nat) (p : list nat) (d : A) (v : list A) :
+  Permutation p (seq 0 n) -> length v = n -> Permutation (perm_vec d p v) v.
+Proof.
+  intros Hp Hv. unfold perm_vec. rewrite (perm_length n p Hp).
+  apply Permutation_trans with (map (fun k => nth (index_of k p) v d) p).
+  - apply Permutation_map. apply Permutation_sym. exact Hp.
+  - replace (map (fun k => nth (index_of k p) v d) p) with v; [apply Permutation_refl|].
+    apply nth_ext with (d := d) (d' := d).
+    + rewrite map_length, (perm_length n p Hp). exact Hv.
+    + intros i Hi. rewrite Hv in Hi.
+      rewrite (nth_map_lt (fun k => nth (index_of k p) v d) p i 0 d)
+        by (rewrite (perm_length n p Hp); exact Hi).
+      fold (nthn p i). rewrite (perm_index_of n p Hp) by exact Hi. reflexivity.
+Qed.
+
+Theorem sum_perm (n : nat) (p : list nat) (v : list Q) :
+  Permutation p (seq 0 n) -> length v = n -> (sumq (perm_vecq p v) == sumq v)%Q.
+Proof. intros Hp Hv. apply sumq_Permutation. apply (perm_vec_Permutation n); assumption. Qed.
+
+Lemma perm_bip_row (nr : nat) (pr pc : list nat) (b : wrows) (i : nat) :
+  Permutation pr (seq 0 nr) -> i < nr ->
+  nth (nthn pr i) (perm_bip pr pc b) [] =
+  map (fun e : nat * Q => (nthn pc (fst e), snd e)) (nth i b []).
+Proof.
+  intros Hp Hi. unfold perm_bip. rewrite (perm_length nr pr Hp).
+  rewrite nth_map_seq by (apply (perm_lt nr pr Hp); exact Hi).
+  rewrite (perm_index_of nr pr Hp) by exact Hi. reflexivity.
+Qed.
+
+Lemma wf_rows_nth (nc : nat) (b : wrows) (i : nat) (e : nat * Q) :
+  wf_rows nc b -> In e (nth i b []) -> fst e < nc.
+Proof.
+  intros Hwf He. destruct (Nat.lt_ge_cases i (length b)) as [L|L].
+  - unfold wf_rows in Hwf. rewrite Forall_forall in Hwf. specialize (Hwf _ (nth_In b [] L)).
+    rewrite Forall_forall in Hwf. exact (Hwf _ He).
+  - rewrite nth_overflow in He by exact L. destruct He.
+Qed.
+
+(** (P_r B P_c^T)(P_c x) = P_r (B x), term by term (Leibniz equality, not only [==]). *)
+Theorem matvec_perm_bip (nr nc : nat) (pr pc : list nat) (b : wrows) (x : list Q) :
+  Permutation pr (seq 0 nr) -> Permutation pc (seq 0 nc) -> wf_rows nc b ->
+  matvec (perm_bip pr pc b) (perm_vecq pc x) = perm_vecq pr (matvec b x).
+Proof.
+  intros Hpr Hpc Hwf. unfold matvec at 1, perm_bip, perm_vecq, perm_vec at 2.
+  rewrite map_map. apply map_ext. intros k.
+  set (r := nth (index_of k pr) b []).
+  assert (Er : nth (index_of k pr) (matvec b x) 0%Q =
+               sumq (map (fun e : nat * Q => (snd e * nthq x (fst e))%Q) r)).
+  { unfold matvec, r.
+    exact (map_nth (fun r0 : wrow => sumq (map (fun e : nat * Q => (snd e * nthq x (fst e))%Q) r0))
+                   b [] (index_of k pr)). }
+  rewrite Er, map_map. f_equal. apply map_ext_in. intros e He. cbn [fst snd]. f_equal.
+  unfold nthq. apply (perm_vec_nth nc pc Hpc). exact (wf_rows_nth nc b _ e Hwf He).
+Qed.
+
+Theorem matvec_perm (n : nat) (p : list nat) (a : wrows) (x : list Q) :
+  Permutation p (seq 0 n) -> wf_rows n a ->
+  matvec (perm_wrows p a) (perm_vecq p x) = perm_vecq p (matvec a x).
+Proof. intros Hp Hwf. apply (matvec_perm_bip n n); assumption. Qed.
+
+(** Pointwise operations commute with renumbering. *)
+Lemma map2_map_seq {A B C} (f : A -> B -> C) (fa : nat -> A) (fb : nat -> B) (l : list nat) :
+  map2 f (map fa l) (map fb l) = map (fun k => f (fa k) (fb k)) l.
+Proof. induction l as [|a l IH]; simpl; [reflexivity|]. f_equal. exact IH. Qed.
+
+Theorem map2_perm {A B C} (n : nat) (p : list nat) (f : A -> B -> C) (da : A) (db : B) (dc : C)
+        (u : list A) (v : list B) :
+  Permutation p (seq 0 n) -> length u = n -> length v = n ->
+  map2 f (perm_vec da p u) (perm_vec db p v) = perm_vec dc p (map2 f u v).
+Proof.
+  intros Hp Hu Hv. unfold perm_vec. rewrite map2_map_seq. apply map_ext_in. intros k Hk.
+  apply in_seq in Hk. rewrite (perm_length n p Hp) in Hk.
+  pose proof (perm_index_lt n p Hp k ltac:(lia)) as Hi.
+  symmetry. apply nth_map2; lia.
+Qed.
+
+Theorem map_perm {A B} (n : nat) (p : list nat) (f : A -> B) (da : A) (db : B) (u : list A) :
+  Permutation p (seq 0 n) -> length u = n ->
+  map f (perm_vec da p u) = perm_vec db p (map f u).
+Proof.
+  intros Hp Hu. unfold perm_vec. rewrite map_map. apply map_ext_in. intros k Hk.
+  apply in_seq in Hk. rewrite (perm_length n p Hp) in Hk.
+  pose proof (perm_index_lt n p Hp k ltac:(lia)) as Hi.
+  symmetry. apply nth_map_lt. lia.
+Qed.
+
+(** * C01: canonical form - equal denotations convert to equal CSR matrices *)
+
+Lemma entry_row_filter_nz (r : wrow) (j : nat) :
+  (entry_row (filter (fun e : nat * Q => qnz (snd e)) r) j == entry_row r j)%Q.
+Proof.
+  induction r as [|e r IH]; [reflexivity|].
+  simpl filter. destruct (qnz (snd e)) eqn:E.
+  - rewrite !entry_row_cons. destruct (Nat.eqb (fst e) j); [rewrite IH; reflexivity|exact IH].
+  - rewrite entry_row_cons. apply qnz_false in E.
+    destruct (Nat.eqb (fst e) j); [rewrite IH, E; ring|exact IH].
+Qed.
+
+Lemma row_sorted_filter (f : nat * Q -> bool) (r : wrow) : row_sorted r -> row_sorted (filter f r).
+Proof.
+  unfold row_sorted. induction r as [|e r IH]; simpl; intros H; [constructor|].
+  inversion H as [|a l Hs Ha]; subst.
+  destruct (f e); [|apply IH; exact Hs]. simpl. constructor; [apply IH; exact Hs|].
+  rewrite Forall_forall in *. intros y Hy. apply Ha.
+  apply in_map_iff in Hy. destruct Hy as [e' [<- He']]. apply filter_In in He'.
+  apply in_map. tauto.
+Qed.
+
+Lemma row_sorted_tail_notin (e : nat * Q) (t : wrow) (k : nat) :
+  row_sorted (e :: t) -> k <= fst e -> ~ In k (map fst t).
+Proof.
+  unfold row_sorted. simpl. intros H Hk Hin. inversion H as [|a l Hs Ha]; subst.
+  rewrite Forall_forall in Ha. specialize (Ha _ Hin). lia.
+Qed.
+
+Lemma entry_row_head (e : nat * Q) (t : wrow) :
+  row_sorted (e :: t) -> (entry_row (e :: t) (fst e) == snd e)%Q.
+Proof.
+  intros H. rewrite entry_row_cons, Nat.eqb_refl.
+  rewrite (entry_row_notin t) by (apply (row_sorted_tail_notin e); [exact H|lia]). ring.
+Qed.
+
+Lemma entry_row_below (e : nat * Q) (t : wrow) (k : nat) :
+  row_sorted (e :: t) -> k < fst e -> entry_row (e :: t) k = 0%Q.
+Proof.
+  intros H Hk. rewrite entry_row_cons.
+  destruct (Nat.eqb_spec (fst e) k) as [E|Ne]; [lia|].
+  apply entry_row_notin. apply (row_sorted_tail_notin e); [exact H|lia].
+Qed.
+
+Lemma row_sorted_tail (e : nat * Q) (t : wrow) : row_sorted (e :: t) -> row_sorted t.
+Proof. unfold row_sorted. simpl. intros H. inversion H; assumption. Qed.
+
+Lemma sorted_rows_eq (r1 r2 : wrow) :
+  row_sorted r1 -> row_sorted r2 ->
+  (forall e, In e r1 -> ~ (snd e == 0)%Q) -> (forall e, In e r2 -> ~ (snd e == 0)%Q) ->
+  (forall j, (entry_row r1 j == entry_row r2 j)%Q) ->
+  row_eq r1 r2.
+Proof.
+  revert r2; induction r1 as [|e1 t1 IH]; intros r2 S1 S2 N1 N2 HE.
+  - destruct r2 as [|e2 t2]; [split; constructor|].
+    exfalso. apply (N2 e2); [left; reflexivity|].
+    rewrite <- (entry_row_head e2 t2 S2), <- HE. reflexivity.
+  - destruct r2 as [|e2 t2].
+    { exfalso. apply (N1 e1); [left; reflexivity|].
+      rewrite <- (entry_row_head e1 t1 S1), HE. reflexivity. }
+    destruct (Nat.lt_trichotomy (fst e1) (fst e2)) as [L|[E|L]].
+    + exfalso. apply (N1 e1); [left; reflexivity|].
+      rewrite <- (entry_row_head e1 t1 S1), HE, (entry_row_below e2 t2 _ S2 L). reflexivity.
+    + assert (Hv : (snd e1 == snd e2)%Q).
+      { rewrite <- (entry_row_head e1 t1 S1), HE, E. apply entry_row_head. exact S2. }
+      assert (Ht : row_eq t1 t2).
+      { apply IH.
+        - exact (row_sorted_tail _ _ S1).
+        - exact (row_sorted_tail _ _ S2).
+        - intros e He. apply N1. right. exact He.
+        - intros e He. apply N2. right. exact He.
+        - intros j. specialize (HE j). rewrite !entry_row_cons in HE.
+          destruct (Nat.eqb_spec (fst e1) j) as [E1|Ne1].
+          + rewrite (entry_row_notin t1), (entry_row_notin t2); [reflexivity| |].
+            * apply (row_sorted_tail_notin e2); [exact S2|lia].
+            * apply (row_sorted_tail_notin e1); [exact S1|lia].
+          + rewrite <- E in HE. destruct (Nat.eqb_spec (fst e1) j) as [E1|_]; [contradiction|].
+            exact HE. }
+      destruct Ht as [Hk Hvs]. split; simpl.
+      * rewrite E, Hk. reflexivity.
+      * constructor; assumption.
+    + exfalso. apply (N2 e2); [left; reflexivity|].
+      rewrite <- (entry_row_head e2 t2 S2), <- HE, (entry_row_below e1 t1 _ S1 L). reflexivity.
+Qed.
+
+Lemma Forall2_nth_intro {A} (R : list A -> list A -> Prop) (a b : list (list A)) :
+  length a = length b -> (forall i, i < length a -> R (nth i a []) (nth i b [])) -> Forall2 R a b.
+Proof.
+  revert b; induction a as [|x a IH]; intros [|y b] HL H; simpl in HL; try discriminate; constructor.
+  - apply (H 0). simpl. lia.
+  - apply IH; [lia|]. intros i Hi. apply (H (S i)). simpl. lia.
+Qed.
+
+Lemma nth_eliminate_zeros (rows : wrows) (i : nat) :
+  nth i (eliminate_zeros rows) [] = filter (fun e : nat * Q => qnz (snd e)) (nth i rows []).
+Proof.
+  unfold eliminate_zeros.
+  apply (nth_map_nil (fun r : wrow => filter (fun e : nat * Q => qnz (snd e)) r)). reflexivity.
+Qed.
+
+Lemma entry_eliminate_zeros (rows : wrows) (i j : nat) :
+  (entry (eliminate_zeros rows) i j == entry rows i j)%Q.
+Proof. unfold entry. rewrite nth_eliminate_zeros. apply entry_row_filter_nz. Qed.
+
+(** Two containers (any of Dense / Coo / Csc / Lil) of the same shape standing for the same matrix
+    convert to the same CSR matrix once stored zeros are dropped: same column lists, [==] values.
+    ([eliminate_zeros] is needed: COO duplicates that cancel stay stored, see the example below.) *)
+Theorem to_csr_canonical (c1 c2 : container) :
+  is_csr c1 = false -> is_csr c2 = false ->
+  wf_shape c1 -> wf_shape c2 -> canonical c1 -> canonical c2 ->
+  c_nrow c1 = c_nrow c2 -> c_ncol c1 = c_ncol c2 ->
+  (forall i j, (den c1 i j == den c2 i j)%Q) ->
+  fst (to_csr c1) = fst (to_csr c2) /\
+  rows_eq (eliminate_zeros (snd (to_csr c1))) (eliminate_zeros (snd (to_csr c2))).
+Proof.
+  intros K1 K2 W1 W2 C1 C2 Hr Hc Hden.
+  destruct (to_csr_shape c1) as [Sc1 Sr1]. destruct (to_csr_shape c2) as [Sc2 Sr2].
+  split; [congruence|].
+  pose proof (to_csr_sorted c1 K1 C1) as So1. pose proof (to_csr_sorted c2 K2 C2) as So2.
+  unfold rows_eq. apply Forall2_nth_intro.
+  - unfold eliminate_zeros. rewrite !map_length.
+    exact (eq_trans Sr1 (eq_trans Hr (eq_sym Sr2))).
+  - intros i Hi. unfold eliminate_zeros in Hi. rewrite map_length in Hi.
+    rewrite !nth_eliminate_zeros. apply sorted_rows_eq.
+    + apply row_sorted_filter. unfold rows_sorted in So1. rewrite Forall_forall in So1.
+      apply So1. apply nth_In. exact Hi.
+    + apply row_sorted_filter. unfold rows_sorted in So2. rewrite Forall_forall in So2.
+      apply So2. apply nth_In.
+      exact (eq_ind _ (fun m => i < m) Hi _ (eq_trans Sr1 (eq_trans Hr (eq_sym Sr2)))).
+    + intros e He. apply filter_In in He. apply qnz_true. tauto.
+    + intros e He. apply filter_In in He. apply qnz_true. tauto.
+    + intros j. rewrite !entry_row_filter_nz.
+      change (entry (snd (to_csr c1)) i j == entry (snd (to_csr c2)) i j)%Q.
+      rewrite !to_csr_denotation by assumption. apply Hden.
+Qed.
+
+(** Without [eliminate_zeros] the statement is false: a COO matrix whose duplicates cancel keeps a
+    stored zero that the dense array of the same values does not have. *)
+Lemma to_csr_canonical_needs_eliminate_zeros :
+  exists c1 c2,
+    is_csr c1 = false /\ is_csr c2 = false /\ wf_shape c1 /\ wf_shape c2 /\
+    c_nrow c1 = c_nrow c2 /\ c_ncol c1 = c_ncol c2 /\
+    (forall i j, (den c1 i j == den c2 i j)%Q) /\
+    map (map fst) (snd (to_csr c1)) <> map (map fst) (snd (to_csr c2)).
+Proof.
+  exists (Coo 1 1 [(0, 0, 1%Q); (0, 0, (-1)%Q)]), (Dense [[0%Q]]).
+  repeat split; try discriminate.
+  - repeat constructor.
+  - repeat constructor.
+  - intros [|i] [|j]; try reflexivity; simpl; unfold nthq; try destruct i; try destruct j; reflexivity.
+Qed.
+
+(** A dense array never produces a stored zero. *)
+Lemma eliminate_zeros_dense (rows : list (list Q)) :
+  eliminate_zeros (snd (to_csr (Dense rows))) = snd (to_csr (Dense rows)).
+Proof.
+  cbn [to_csr snd]. unfold eliminate_zeros. rewrite map_map. apply map_ext. intros r.
+  unfold dense_row. apply filter_all. intros e He. apply filter_In in He. tauto.
+Qed.
+
+(** * C01: CSR with shuffled rows (unsorted indices) has the same denotation and pattern *)
+
+Lemma entry_row_Permutation (r r' : wrow) (j : nat) :
+  Permutation r r' -> (entry_row r j == entry_row r' j)%Q.
+Proof.
+  intros H. unfold entry_row. apply sumq_Permutation. apply Permutation_map. apply perm_filter. exact H.
+Qed.
+
+Lemma Forall2_nth_elim {A} (R : list A -> list A -> Prop) (a b : list (list A)) (i : nat) :
+  R [] [] -> Forall2 R a b -> R (nth i a []) (nth i b []).
+Proof.
+  intros H0 H. revert i; induction H as [|x y a b Hxy Hab IH]; intros [|i]; simpl; auto.
+Qed.
+
+Theorem csr_shuffle_invariant (rows rows' : wrows) :
+  Forall2 (@Permutation (nat * Q)) rows rows' ->
+  (forall i j, (entry rows i j == entry rows' i j)%Q) /\
+  same_rows (pattern rows) (pattern rows').
+Proof.
+  intros H. split.
+  - intros i j. unfold entry. apply entry_row_Permutation.
+    apply (Forall2_nth_elim (@Permutation (nat * Q))); [constructor|exact H].
+  - split.
+    + rewrite !pattern_length. clear -H. induction H; simpl; auto.
+    + intros u v. rewrite !row_pattern.
+      assert (HP : Permutation (nth u rows []) (nth u rows' []))
+        by (apply (Forall2_nth_elim (@Permutation (nat * Q))); [constructor|exact H]).
+      split; apply Permutation_in; apply Permutation_map; apply perm_filter;
+        [exact HP | apply Permutation_sym; exact HP].
+Qed.
+
+Print Assumptions block_denotation.
+Print Assumptions fit_bipartite_eq_block.
+Print Assumptions to_csr_denotation.
+Print Assumptions to_csr_canonical.
+Print Assumptions bfs_equivariant.
+Print Assumptions get_dag_equivariant.
+Print Assumptions matvec_perm_bip.
